@@ -36,6 +36,14 @@ func c15Oracle(log []stream.Out, want stream.Bag) (fp, what string, got stream.B
 	return "", "", run
 }
 
+// c15Rerun: histories of up to 4 events are also run twice on ONE node instance.
+func c15Rerun(spec nodeSpec, evs []stream.Ev) string {
+	if len(evs) > 4 {
+		return ""
+	}
+	return stream.RerunDiff(spec.build, evs)
+}
+
 func init() {
 	register("C15", "model_checking", func(r *findings.Run) {
 		L := r.Pick(5, 6)
@@ -49,7 +57,7 @@ func init() {
 		joinLen := r.Pick(2, 3)
 		r.Bound = map[string]interface{}{"single_input_history_len": L, "watermarked_history_len": optsB.MaxLen, "histories": len(hist), "nodes": len(specs),
 			"join_events_per_side": joinLen}
-		r.Rule = "every valid changelog (rows (1,1),(1,2),(2,1),(NULL,1); inserts and retractions of present rows; a family with zero event times and a family with event times {1,2} plus monotone watermarks) up to the length bound, replayed on a fresh instance of every single-input execution node; joins: every pair of per-side changelogs (zero event times, keys {1,2}, duplicates, retractions) x every interleaving under the join controller; state = (node, history prefix); non-trivial = history containing a retraction whose expected output is non-empty"
+		r.Rule = "every valid changelog (rows (1,1),(1,2),(2,1),(NULL,1); inserts and retractions of present rows; a family with zero event times and a family with event times {1,2} plus monotone watermarks) up to the length bound, replayed on a fresh instance of every single-input execution node; joins: every pair of per-side changelogs (zero event times, keys {1,2}, duplicates, retractions) x every interleaving under the join controller; histories of up to 4 events are additionally run twice on one node instance (as below a LOOKUP JOIN) and must emit the same stream; state = (node, history prefix); non-trivial = history containing a retraction whose expected output is non-empty"
 		r.Assume("input never retracts an absent row", "no late records", "NULL join keys are C02's business and are not used for the join part", "LIMIT is not in the property's operator list and is not checked here")
 
 		type job struct {
@@ -66,6 +74,9 @@ func init() {
 			jobs = nil // the single-input part is done once, by the parent process
 		}
 		enum.Parallel(len(jobs), func(i int) {
+			if r.TimeUp() {
+				return
+			}
 			j := jobs[i]
 			evs := j.evs
 			if j.spec.listInput {
@@ -96,6 +107,9 @@ func init() {
 			if fp != "" {
 				cs.Got, cs.Want = got.String(), want.String()
 				r.Violation("C15/"+j.spec.name+"/"+fp, fmt.Sprintf("%s: input %v: %s", j.spec.name, cs.Input, what), cs)
+			} else if d := c15Rerun(j.spec, evs); d != "" {
+				// one node instance is run once per outer record below a LOOKUP JOIN / subquery expression
+				r.Violation("C15/"+j.spec.name+"/second-run-of-same-node-differs", fmt.Sprintf("%s: input %v: %s", j.spec.name, cs.Input, d), cs)
 			} else if hasRetr && len(want) > 0 && i%977 == 0 {
 				r.Sample(cs)
 			}
@@ -136,7 +150,7 @@ func init() {
 		r.Extra["join_script_pairs"] = len(jjobs)
 		r.Sharded(16, 1, func(shard, n int) {
 			for i, j := range jjobs {
-				if i%n != shard {
+				if i%n != shard || r.TimeUp() {
 					continue
 				}
 				stream.Schedules(len(j.l)+1, len(j.r)+1, func(s []int) bool {
